@@ -42,18 +42,36 @@ THEOREMS = [
     "IrVerif.Clone.C13_functionalize",
     "IrVerif.Clone.C13_frame_orig_edited",
     "IrVerif.Clone.C13_frame_orig_edited_model",
+    "IrVerif.Clone.C13_faithful",
+    "IrVerif.Clone.C13_faithful_function",
+    "IrVerif.Clone.C13_faithful_model",
+    "IrVerif.Clone.C13_faithful_serialize",
 ]
 ASSUMPTIONS = [
-    "metadata containers are modelled as allocated together with their owner (Python creates them lazily)",
-    "a type object is one cell (wrapper chain flattened): sharing of an inner type object between two outer "
-    "type objects is not expressible in the model (the oracle still covers it on the real objects)",
+    "hand-written model IrVerif.Clone of _cloner.py / the clone entry points / the constructors they call; tied to the "
+    "code by this correspondence check (reach = the generators; distribution in the evidence)",
+    "metadata containers are modelled as allocated together with their owner (Python creates them lazily); the model "
+    "allocates every new cell in its final form (outputs, then the node, then producer links; the graph cell, then the "
+    "ownership checks) where Python creates the object first and fills it in: no error point lies between and the "
+    "intermediate states are not observable (heaps are compared up to renaming after every step, also after raising steps)",
+    "a type object is one cell (wrapper chain flattened): sharing of an inner type object between two outer type objects "
+    "is not expressible in the model (the oracle still covers it on the real objects); opset_imports dicts are by value",
     "meta values are opaque atoms in the model; deep_copy=True is covered by the oracle only",
-    "tensors, attribute payloads and device-configuration payloads are opaque shared ids; in-place mutation of a "
-    "shared Attr object (Attr.name=, Attr.doc_string=) or of a shared tensor (its .name follows Value.name=) is "
-    "outside the edit alphabet: the property allows tensors to be shared and the cloner shares non-graph attributes",
-    "inliner-only Cloner parameters (attr_map, resolve_ref_attrs, metadata_props, post_process, None map entries) "
-    "are fixed to what the clone entry points pass",
-    "values / nodes named None (Graph.__init__ invents names, property C15) are outside the model: oracle only",
+    "tensors, attribute payloads and device-configuration payloads are opaque shared ids; in-place mutation of a shared "
+    "Attr object (Attr.name=, Attr.doc_string=) or of a shared tensor (its .name follows Value.name=) is outside the edit "
+    "alphabet: the property allows tensors to be shared and the cloner shares non-graph attributes",
+    "inliner-only Cloner parameters (attr_map, resolve_ref_attrs, metadata_props, post_process, None map entries) are "
+    "fixed to what the clone entry points pass",
+    "values / nodes named None (Graph.__init__ invents names, property C15) are outside the model (answer "
+    "'unsupported'): oracle only (known finding D111)",
+    "frame theorems quantify over the edit alphabet IrVerif.Clone.Edit (23 editing calls, listed in Model/Clone.lean) with "
+    "arguments outside the protected region; other editing calls are covered by the oracle only as far as generated",
+    "C13_frame_orig_edited assumes the heap before cloning has no dangling pointers (wellFormed); checked on every "
+    "abstracted real heap by the driver",
+    "C13_closed constrains node inputs only for allow_outer_scope_values=False; with True the clone may consume outer "
+    "values by design and D33 (unsorted graph) is a recorded finding (witness proved in Props/C13.lean)",
+    "serGraph (C13_faithful_serialize) is a model of what the serializer reads, not compared field by field with serde "
+    "(properties C02/C03); the run reports on how many abstracted real heaps it is defined",
 ]
 
 import onnx_ir as ir  # noqa: E402
@@ -1201,7 +1219,8 @@ def real_case(spec, histories_seed, n_hist, n_edits, out, fixed_plans=None):
     _defined, outer, ordered = source_analysis(src)
     step = {"model": {"op": "modelClone", "mo": src_id}, "function": {"op": "funcClone", "f": src_id}}.get(kind) or {
         "op": "graphClone", "g": src_id, "allow": bool(t.get("allow"))}  # fmt: skip
-    res = {"spec": spec, "world0": world0, "n0": n0, "roots": root_ids, "step": step, "tag": tag, "hist": []}
+    res = {"spec": spec, "world0": world0, "n0": n0, "roots": root_ids, "step": step, "tag": tag, "hist": [],
+           "src_serializes": isinstance(src_ser, bytes)}
     try:
         clone = do_clone_kind(b, kind, t)
         res["outcome"] = "ok"
@@ -1418,6 +1437,20 @@ def compare_cases(ctx: Ctx, results):
             edits = [map_ids(e, m) for e in h["tr"]]
             reqs2.append({"m": "clone.history", "world": r["world0"], "clone": r["step"], "edits": edits})
             idx2.append((r, h, mroots, iroots))
+    # the serialization model (C13_faithful_serialize): defined on the abstracted heap? same for clone and original?
+    sreqs, sres = [], []
+    for r in results:
+        if r["step"]["op"] == "graphClone" and r["outcome"] == "ok":
+            sreqs.append({"m": "clone.ser", "world": r["world0"], "clone": r["step"], "src": r["step"]["g"], "k": 8})
+            sres.append(r)
+    for r, o in zip(sres, lean_batch_parallel(sreqs)):
+        if "err" in o or o["outcome"]["r"] != "ok":
+            continue
+        real_ok = r.get("src_serializes", False)
+        ctx.count(f"serGraph_defined={o['defined']}:real_serializes={real_ok}")
+        if o["defined"] and not (o.get("equal") and o.get("same_after")):
+            ctx.disagree("serGraph(clone) != serGraph(original) although defined (contradicts C13_faithful_serialize)",
+                         {"spec": r["spec"]}, o, None)  # fmt: skip
     outs2 = lean_batch_parallel(reqs2)
     for (r, h, mroots, iroots), o in zip(idx2, outs2):
         spec = r["spec"]
